@@ -18,9 +18,32 @@ def table_lines(g, pats, hosts):
         out.append("route find %s" % hx(h))
     return out
 
+def cfg_lines(g, entries, hosts):
+    """the table built from a YAML configuration, the way the program does at start-up: entries = [(protocol, [dests], nexthop)]"""
+    y = "proxies:\n- name: svc.test\n  route:\n"
+    flat = []
+    for (proto, dests, hop) in entries:
+        y += "  - protocol: %s\n    nexthop: \"%s\"\n    dests:\n" % (proto, hop) + "".join("    - \"%s\"\n" % d for d in dests)
+        for d in dests:
+            flat += [hx(proto), hx(d), hx(hop)]
+    out = [("route cfg %s " % hx(y) + " ".join(flat)).rstrip()]
+    for h in hosts:
+        out.append("route find %s" % hx(h))
+    for h in reversed(hosts):
+        out.append("route find %s" % hx(h))
+    return out
+
 def generate(seed, tier):
     g = Gen(seed)
     lines = []
+    # tables built from the configuration: several dests share one next hop, wildcards in any position of the list
+    for _ in range(150 if tier == "quick" else 3000):
+        entries = []
+        for i in range(g.rint(1, 4)):
+            dests = [g.pick(PATTERNS + ["*.b.com", "b.*", "test1", "*.example.com"]) for _ in range(g.rint(1, 4))]
+            entries.append((g.pick(["udp", "tcp", "tls"]), dests, "10.9.%d.1" % i + g.pick(["", ":6000"])))
+        lines += cfg_lines(g, entries, [g.pick(HOSTS + ["z.b.com", "b.a", "a.example.com", "test1", "q.example.com"]) for _ in range(8)])
+        g.count("config_built_tables")
     maxn = 3 if tier == "quick" else 4
     pats = PATTERNS[:8] if tier == "quick" else PATTERNS
     n = 0
